@@ -79,9 +79,10 @@ def run_vector(v):
     tr = dict(v)
     tr['res'] = 'ok'
     tr['got'] = []
-    tr['bounds'] = {'h': False, 'got': []}
-    tr['back'] = {'h': False, 'v': [], 'idx': [], 'strict': False}
-    tr['synth'] = {'h': False, 'got': []}
+    tr['bounds'] = {'h': False, 'got': [], 'exc': ''}
+    tr['back'] = {'h': False, 'v': [], 'idx': [], 'strict': False,
+                  'exc': ''}
+    tr['synth'] = {'h': False, 'got': [], 'exc': ''}
     kind = v['kind']
     try:
         if kind == 'cf':
@@ -126,9 +127,11 @@ def run_vector(v):
     if kind in ('tflag', 'sdate') and v.get('want_bounds'):
         try:
             tb = f.getTimes(bounds=True)
-            tr['bounds'] = {'h': True, 'got': [civil(t) for t in tb]}
+            tr['bounds'] = {'h': True, 'got': [civil(t) for t in tb], 'exc': ''}
         except Exception as ex:
-            tr['bounds_exc'] = repr(ex)[:100]
+            tr['bounds'] = {'h': False, 'got': [],
+                            'exc': '%s: %s' % (type(ex).__name__,
+                                               str(ex)[:100])}
     # inverse maps (CF)
     if kind == 'cf':
         try:
@@ -143,19 +146,25 @@ def run_vector(v):
             if strict:
                 ii = f.time2idx(times, dim='time')
                 idx = [int(x) for x in np.ma.filled(ii, -1).ravel()]
-            tr['back'] = {'h': True, 'v': back, 'idx': idx, 'strict': strict}
+            tr['back'] = {'h': True, 'v': back, 'idx': idx, 'strict': strict,
+                          'exc': ''}
         except Exception as ex:
-            tr['back_exc'] = repr(ex)[:100]
+            tr['back'] = {'h': False, 'v': [], 'idx': [], 'strict': False,
+                          'exc': '%s: %s' % (type(ex).__name__,
+                                             str(ex)[:100])}
     # CF time variable synthesised from IOAPI metadata
     if kind in ('tflag', 'sdate') and v.get('want_synth'):
         try:
-            from PseudoNetCDF.conventions.ioapi import add_time_variable
+            from PseudoNetCDF.conventions.ioapi._ioapi import \
+                add_time_variable
             g = f.copy()
             add_time_variable(g, 'time')
             tt = g.getTimes()
-            tr['synth'] = {'h': True, 'got': [civil(t) for t in tt]}
+            tr['synth'] = {'h': True, 'got': [civil(t) for t in tt], 'exc': ''}
         except Exception as ex:
-            tr['synth_exc'] = repr(ex)[:100]
+            tr['synth'] = {'h': False, 'got': [],
+                           'exc': '%s: %s' % (type(ex).__name__,
+                                              str(ex)[:100])}
     return tr
 
 
